@@ -20,7 +20,9 @@ const char *BOUNDARY[] = {
 	"0b1000000000000000000000000000000000000000000000000000000000000000", "99999999999999999999", "-99999999999999999999", "1e999", "-1e999", "1.7976931348623157e308",
 	"1.7976931348623159e308", "1e308", "1e309", "0x", "0b", "0", "00", "08", "09", "0b2", "0b1", "0x1g", "0xg", "-0x10", "0x-5", "0b+1", "0-7", "-0", "+5", "--5", "+-5", " 5", "5 ", " 5 ",
 	"5x", "x5", "", " ", "1.5", "1.5.5", ".5", "5.", ".", "e5", "1e", "1e+", "1e+2", "1E2", "inf", "nan", "-inf", "0x1p3", "1e-999", "4.9e-324", "1e-400", "2.2250738585072014e-308", "1e-310", "1f", "0f", "true", "TRUE", "tRuE", "yes", "YES", "on",
-	"On", "false", "no", "off", "OFF", "1", "maybe", "tru", "truee", "y", "n", "o", "yess", " on", "on ", "0b0", "0x0", "0b", "-", "+", "0b11111111", "0xABCdef", "0XFF", "0B1", "012", "-012", "+012"};
+	"On", "false", "no", "off", "OFF", "1", "maybe", "tru", "truee", "y", "n", "o", "yess", " on", "on ", "0b0", "0x0", "0b", "-", "+", "0b11111111", "0xABCdef", "0XFF", "0B1", "012", "-012", "+012",
+	// every kind of white space strtol/strtod would skip, in front and behind
+	"\n7", "\r7", "\v7", "\f7", "\t7", "7\n", "7\t", "\n0x1f", "\n017", "\f0b1", "\n1.5", "\t1.5", "\v1.5", "1.5\n", "\n-3", "\non", "on\n", "\ttrue", "\r\n5"};
 const int NBOUNDARY = sizeof(BOUNDARY) / sizeof(BOUNDARY[0]);
 
 const int ERRNOS[] = {0, ERANGE, EINVAL, ENOENT, EINTR, EBADF, 12345};
